@@ -221,6 +221,11 @@ def _p_request_value_out_of_range():
     return lambda: bytes(rq.encode(v=300))
 
 
+def _p_constant_that_does_not_fit():
+    rq = B.request([B.coded_const("sid", 0x1FF, 0, 8), B.value_param("v", B.dop("u8", 8), 1)])
+    return lambda: bytes(rq.coded_const_prefix())
+
+
 def _p_ambiguous_snref():
     items = [Named("t"), Named("t")]
     return lambda: resolve_snref("t", items)
@@ -244,6 +249,7 @@ PROBLEMS = {
     "texttable-unknown-text": _p_texttable_unknown_text,
     "request-value-out-of-range": _p_request_value_out_of_range,
     "ambiguous-snref": _p_ambiguous_snref,
+    "constant-that-does-not-fit": _p_constant_that_does_not_fit,
 }
 
 
